@@ -17,9 +17,14 @@ Definition clause_text (c : clause) : str :=
   match c with CVer w1 w2 w3 v => ver_text_ws w1 w2 w3 v | CArchs nt w0 items => archs_text_ws nt w0 items | CStages w0 items => stageset_text_ws w0 items end.
 Definition apply_clause (p : possi) (c : clause) : possi :=
   match c with CVer _ _ _ v => set_ver p v | CArchs nt _ items => set_archs p {| a_not := nt; a_list := map fst items |} | CStages _ items => add_stages p (map fst items) end.
+(* the version number is not empty, and after an operator written without a following blank it does not
+   start with '=', '<' or '>' (which would read as "==", "=<", "=>") *)
+Definition num_ok (w2 : str) (v : vrel) : Prop := v_num v <> [] /\ opnext (w2 ++ v_num v) = true.
+Lemma opnext_app x y : x <> [] -> opnext (x ++ y) = opnext x.
+Proof. destruct x; [congruence|reflexivity]. Qed.
 Definition clause_ok (p : possi) (c : clause) : Prop :=
   match c with
-  | CVer w1 w2 w3 v => all_ws w1 /\ all_ws w2 /\ all_ws w3 /\ wf_ver v /\ v_num v <> [] /\ p_ver p = None   (* at most one version clause *)
+  | CVer w1 w2 w3 v => all_ws w1 /\ all_ws w2 /\ all_ws w3 /\ wf_ver v /\ num_ok w2 v /\ p_ver p = None   (* at most one version clause *)
   | CArchs nt w0 items => items <> [] /\ Forall (wf_archent nt) (map fst items) /\ seps_ok items /\ all_ws w0 /\
                 p_archs p = Some {| a_not := false; a_list := [] |}             (* at most one architecture clause *)
   | CStages w0 items => items <> [] /\ Forall wf_stage (map fst items) /\ sseps_ok items /\ all_ws w0   (* any number of profile groups *)
@@ -47,9 +52,9 @@ Proof.
   destruct st as [|s0 st']; [congruence|]. apply H2. lia.
 Qed.
 
-Lemma parse_operator_ws w o rest : all_ws w -> In o ops -> parse_operator (w ++ o ++ rest) = Ok (o, rest).
+Lemma parse_operator_ws w o rest : all_ws w -> In o ops -> opnext rest = true -> parse_operator (w ++ o ++ rest) = Ok (o, rest).
 Proof.
-  intros Hw Ho. rewrite <- (parse_operator_op o rest Ho). unfold parse_operator. rewrite (eat_ws_app w _ Hw). reflexivity.
+  intros Hw Ho Hn. rewrite <- (parse_operator_op o rest Ho Hn). unfold parse_operator. rewrite (eat_ws_app w _ Hw). reflexivity.
 Qed.
 Lemma all_ws_numc w : all_ws w -> forallb numc w = true.
 Proof.
@@ -59,12 +64,14 @@ Qed.
 Lemma all_ws_rev w : all_ws w -> all_ws (rev w).
 Proof. apply Forall_rev. Qed.
 
-Lemma parse_version_render_ws w1 w2 w3 v rest : all_ws w1 -> all_ws w2 -> all_ws w3 -> wf_ver v -> v_num v <> [] ->
+Lemma parse_version_render_ws w1 w2 w3 v rest : all_ws w1 -> all_ws w2 -> all_ws w3 -> wf_ver v -> num_ok w2 v ->
   parse_version (ver_text_ws w1 w2 w3 v ++ rest) = Ok (v, rest).
 Proof.
-  intros H1 H2 H3 [Hop Hnum Hlead Htrail] Hne. unfold ver_text_ws, parse_version.
+  intros H1 H2 H3 [Hop Hnum Hlead Htrail] [Hne Hon]. unfold ver_text_ws, parse_version.
   cbn [app eat_ws]. change (is_ws (ch 40)) with false. cbv iota. cbn [adv tl].
-  rewrite <- !app_assoc. rewrite (parse_operator_ws w1 (v_op v) _ H1 Hop). cbv iota beta.
+  assert (Hon' : opnext (w2 ++ v_num v ++ w3 ++ [ch 41] ++ rest) = true).
+  { rewrite app_assoc, opnext_app; [exact Hon|]. destruct w2; [cbn; exact Hne|discriminate]. }
+  rewrite <- !app_assoc. rewrite (parse_operator_ws w1 (v_op v) _ H1 Hop Hon'). cbv iota beta.
   rewrite (eat_ws_app w2 _ H2).
   assert (HL : headok (v_num v ++ w3 ++ [ch 41] ++ rest)).
   { unfold headok in *. destruct (v_num v) as [|c r]; [congruence|exact Hlead]. }
@@ -75,7 +82,7 @@ Proof.
   destruct v; reflexivity.
 Qed.
 
-Lemma controllers_ver1 p w1 w2 w3 v more x : all_ws w1 -> all_ws w2 -> all_ws w3 -> wf_ver v -> v_num v <> [] -> p_ver p = None ->
+Lemma controllers_ver1 p w1 w2 w3 v more x : all_ws w1 -> all_ws w2 -> all_ws w3 -> wf_ver v -> num_ok w2 v -> p_ver p = None ->
   evOk (fun f => controllers f (set_ver p v) more) x ->
   evOk (fun f => controllers f p (ch 32 :: ver_text_ws w1 w2 w3 v ++ more)) x.
 Proof.
